@@ -341,3 +341,217 @@ void shift_dense(Rng& rng)
     bin<Tag, _impl::shift_right_op, L, R>("shr", lv, rv);
 #endif
 }
+
+
+// ---------------------------------------------------------------------------------------------
+// conversions in which an overflow_integer takes part as a NUMBER (the wrapper's converting constructors and
+// conversion operator, not the bare `convert<>` functor):
+//   wcvt <path> <tag> ww <S> <D> v   overflow_integer<S,Tag> -> overflow_integer<D,Tag>   (constructor from a related wrapper)
+//   wcvt <path> <tag> wa <S> <D> v   the same by assignment to an existing object
+//   wcvt <path> <tag> wb <S> <D> v   overflow_integer<S,Tag> -> built-in D                (explicit conversion operator)
+//   wcvt <path> <tag> bw <S> <D> v   built-in S -> overflow_integer<D,Tag>                (constructor from a non-wrapper)
+//   wcvt <path> <tag> rw <S> <D> v   rounding_integer<S> -> overflow_integer<D,Tag>       (constructor from an unrelated wrapper)
+//   wcvt <path> <tag> ew <S> <D> v   elastic_integer<digits S> -> overflow_integer<D,Tag> (S may be a width no built-in has: i21, u12)
+//   wcvt <path> <tag> wf <S> <D> v   function argument: f(overflow_integer<D,Tag>) called with an overflow_integer<S,Tag>
+// values: the lattice of S plus the limits of D and their neighbours (where S holds them)
+template<class S, class D>
+std::vector<S> cvt_vals(Rng& rng, I slo, I shi)
+{
+    std::vector<S> sv;
+    using DL = std::numeric_limits<D>;
+    for (I o : {I(-2), I(-1), I(0), I(1), I(2)})
+        for (I b : {I(DL::max()), I(DL::lowest()), I(0), slo, shi, I(DL::max()) / 2, -I(DL::max())}) {
+            I v = b + o;
+            if ((b > 0 && v < 0) || (b < 0 && v > 0 && o < 0)) continue;  // wrapped in __int128 (never for the types used here)
+            if (v >= slo && v <= shi) push_unique(sv, S(v));
+        }
+    for (S v : vals<S>(rng, 4 * scale_from_env(), sizeof(S) > 4 ? 11 : 5))
+        if (I(v) >= slo && I(v) <= shi) push_unique(sv, v);
+    return sv;
+}
+
+template<class D, class Tag>
+overflow_integer<D, Tag> wcvt_arg(overflow_integer<D, Tag> x) { return x; }
+
+#define WCV(KIND, SN, EXPR, PRINT) \
+    { \
+        printf(VH_TABLE " wcvt " VH_PATH " %s " KIND " %s %s ", tag.c_str(), SN, tn<D>().c_str()); \
+        prv(s); \
+        fputs(" => ", stdout); \
+        VH_RUN(EXPR, PRINT) \
+    }
+
+template<class Tag, class S, class D>
+void wcvt(Rng& rng)
+{
+    std::string tag = TagN<Tag>::name();
+    using A = overflow_integer<S, Tag>;
+    using B = overflow_integer<D, Tag>;
+    using SL = std::numeric_limits<S>;
+    std::string sn = tn<S>();
+    for (S s : cvt_vals<S, D>(rng, I(SL::lowest()), I(SL::max()))) {
+        A a = _impl::from_rep<A>(s);
+        WCV("ww", sn.c_str(), (B{a}), print_num)
+        WCV("wa", sn.c_str(), ([&] { B b{}; b = a; return b; }()), print_num)
+        WCV("wf", sn.c_str(), (wcvt_arg<D, Tag>(a)), print_num)
+        WCV("wb", sn.c_str(), (static_cast<D>(a)), print_tv)
+        WCV("bw", sn.c_str(), (B{s}), print_num)
+        if constexpr (sizeof(S) <= 8) {
+            using RI = rounding_integer<S, native_rounding_tag>;
+            RI r = _impl::from_rep<RI>(s);
+            WCV("rw", sn.c_str(), (B{r}), print_num)
+        }
+    }
+}
+
+// elastic_integer<ED, N> sources: digit counts that no built-in type has
+template<class Tag, int ED, class N, class D>
+void wcvt_elastic(Rng& rng)
+{
+    std::string tag = TagN<Tag>::name();
+    using B = overflow_integer<D, Tag>;
+    using E = elastic_integer<ED, N>;
+    using S = _impl::rep_of_t<E>;
+    constexpr bool sg = std::is_signed_v<N>;
+    std::string sn = (sg ? "i" : "u") + std::to_string(ED + (sg ? 1 : 0));
+    I hi = (I(1) << ED) - 1;
+    for (S s : cvt_vals<S, D>(rng, sg ? -hi : I(0), hi)) {
+        E e = _impl::from_rep<E>(s);
+        WCV("ew", sn.c_str(), (B{e}), print_num)
+    }
+}
+
+
+// ---------------------------------------------------------------------------------------------
+// static_number / static_integer: the rounding layer INSIDE the overflow layer (the overflow test passes the
+// operands on to elastic / rounding arithmetic on the bare representation), at and next to full width of the word:
+//   sn bin <mode> <tag> <op> <D1> <E1> <D2> <E2> a b      (the line format of the C11 table, judged by the C11 model)
+//   sn neg <mode> <tag> <D1> <E1> a
+// E = i in the harness call means a bare static_integer (printed with exponent 0).
+template<class Z>
+void print_sn(Z const& z)
+{
+    if constexpr (std::is_same_v<Z, bool>) {
+        putchar(z ? '1' : '0');
+    } else {
+        int e = 0;
+        if constexpr (requires { _impl::tag_of_t<Z>::exponent; }) e = _impl::tag_of_t<Z>::exponent;
+        printf("sn(%d,%d):", digits_v<Z>, e);
+        prv(cnl::unwrap(z));
+    }
+}
+
+// build from the representation value without going through any checked conversion
+template<class T>
+T mk_static(I v)
+{
+    if constexpr (_impl::is_wrapper<T>)
+        return _impl::from_rep<T>(mk_static<_impl::rep_of_t<T>>(v));
+    else
+        return T(v);
+}
+
+// magnitudes up to the declared limit 2^D - 1, dense in the top two binades (both operands above half the range:
+// the remainder of their division is above a quarter of it), plus small and seeded random values; both signs
+template<int D>
+std::vector<I> sn_vals(Rng& rng, int nrand)
+{
+    std::vector<I> v;
+    I hi = (I(1) << D) - 1;
+    auto add = [&](I x) {
+        if (x < 0) x = -x;
+        if (x > hi) return;
+        push_unique(v, x);
+        push_unique(v, I(-x));
+    };
+    for (int d = 0; d <= 3; ++d) {
+        add(hi - d);
+        add(d);
+        for (int j : {D - 1, D - 2, D - 3, D / 2}) {
+            if (j < 0) continue;
+            add((I(1) << j) + d);
+            add((I(1) << j) - d);
+        }
+        add(hi / 3 + d);
+        add(2 * (hi / 3) + d);
+        add(hi / 3 * 2 - d);
+        add(hi / 2 + (hi / 4) + d);
+    }
+    for (I s : {I(7), I(10), I(1000), I(65536)}) add(s);
+    for (int i = 0; i < nrand; ++i) {
+        U x = rng.next128();
+        int len = (i % 2) ? D : 1 + rng.below(D);  // every other one with the top bit of the range set
+        x &= ((U(1) << len) - 1);
+        if (i % 2) x |= U(1) << (D - 1);
+        add(I(x & U(hi)));
+    }
+    return v;
+}
+
+template<class R, class O, int D1, int E1, int D2, int E2, bool Bare = false>
+void sn_ops(Rng& rng)
+{
+    using A = std::conditional_t<Bare, static_integer<D1, R, O>, static_number<D1, E1, R, O>>;
+    using B = std::conditional_t<Bare, static_integer<D2, R, O>, static_number<D2, E2, R, O>>;
+    std::string rt = TagN<R>::name(), ot = TagN<O>::name();
+    auto av = sn_vals<D1>(rng, 6 * scale_from_env());
+    auto bv = sn_vals<D2>(rng, 6 * scale_from_env());
+#define SNH(NAME) \
+    printf(VH_TABLE " sn bin %s %s " NAME " %d %d %d %d ", rt.c_str(), ot.c_str(), D1, E1, D2, E2); \
+    pri(a); \
+    putchar(' '); \
+    pri(b); \
+    fputs(" => ", stdout);
+    for (I a : av) {
+        A x = mk_static<A>(a);
+        for (I b : bv) {
+            B y = mk_static<B>(b);
+            if (b != 0) { SNH("div") VH_RUN(x / y, print_sn) }
+            { SNH("add") VH_RUN(x + y, print_sn) }
+            { SNH("sub") VH_RUN(x - y, print_sn) }
+            if constexpr (D1 + D2 <= 120) { SNH("mul") VH_RUN(x * y, print_sn) }
+        }
+        printf(VH_TABLE " sn neg %s %s %d %d ", rt.c_str(), ot.c_str(), D1, E1);
+        pri(a);
+        fputs(" => ", stdout);
+        VH_RUN(-x, print_sn)
+    }
+}
+
+
+// ---------------------------------------------------------------------------------------------
+// scaled_integer conversion between DIFFERENT radixes into an overflow_integer representation:
+//   sxr <path> <tag> <S> <eS> <rS> <D> <eD> <rD> v    scaled_integer<S, power<eS, rS>> -> scaled_integer<overflow_integer<D, Tag>, power<eD, rD>>
+// the scaling steps (multiplications by a power of either radix, then divisions) must run under the tag.
+// values: lattice of S plus the solutions of  limit / factor  for every prefix of the multiplication chain
+template<class Tag, class S, int ES, int RS, class D, int ED, int RD>
+void sxr(Rng& rng)
+{
+    static_assert(RS != RD);
+    std::string tag = TagN<Tag>::name();
+    using A = scaled_integer<S, power<ES, RS>>;
+    using B = scaled_integer<overflow_integer<D, Tag>, power<ED, RD>>;
+    using SL = std::numeric_limits<S>;
+    using DL = std::numeric_limits<D>;
+    auto ipow = [](int r, int k) { I p = 1; while (k-- > 0) p *= r; return p; };
+    I m1 = ES > 0 ? ipow(RS, ES) : 1, m2 = ED < 0 ? ipow(RD, -ED) : 1;
+    I d1 = ES < 0 ? ipow(RS, -ES) : 1, d2 = ED > 0 ? ipow(RD, ED) : 1;
+    std::vector<S> sv = vals<S>(rng, 6 * scale_from_env(), sizeof(S) > 4 ? 11 : 5);
+    for (I lim : {I(SL::max()), I(SL::lowest()), I(DL::max()), I(DL::lowest()), I(DL::max()) + 1})
+        for (I f : {m1, m2, m1 * m2})
+            for (I g : {I(1), d1, d1 * d2})
+                for (I o : {I(-1), I(0), I(1), I(2)}) {
+                    // lim / f * g: the source value whose scaled image is next to the limit
+                    I q = lim / f;
+                    if (q > (I(1) << 100) / g || q < -(I(1) << 100) / g) continue;
+                    for (I v : {q * g + o, -(q * g) + o, (q + o) * g})
+                        if (v >= I(SL::lowest()) && v <= I(SL::max())) push_unique(sv, S(v));
+                }
+    for (S s : sv) {
+        printf(VH_TABLE " sxr " VH_PATH " %s %s %d %d %s %d %d ", tag.c_str(), tn<S>().c_str(), ES, RS, tn<D>().c_str(), ED, RD);
+        prv(s);
+        fputs(" => ", stdout);
+        A a = _impl::from_rep<A>(s);
+        VH_RUN((B{a}), print_num)
+    }
+}
